@@ -76,6 +76,22 @@ pub fn select_connection_idx(
     }
 }
 
+/// Publish the configured liveness window (`conn_timeout_ms`) onto every link.
+///
+/// [`SrtlaConnection::is_timed_out`] carries no config and reads the link's own
+/// copy. The selection pass refreshes the copies on every routed packet, but
+/// housekeeping decides tear-downs without routing anything: with no client
+/// traffic (encoder not started yet, or paused) a link would otherwise be
+/// judged against a stale copy - the built-in default, or the value from
+/// before the last `set_conn_timeout`. The housekeeping arm calls this right
+/// before each pass.
+#[inline]
+pub fn sync_conn_timeout(conns: &mut [SrtlaConnection], config: &ConfigSnapshot) {
+    for c in conns.iter_mut() {
+        c.conn_timeout_ms = config.conn_timeout_ms;
+    }
+}
+
 /// Drive every link's stall latch and fast silence pull, and recompute its
 /// `stall_gated` flag.
 ///
@@ -101,9 +117,7 @@ pub fn select_connection_idx(
 /// not carry a config.
 #[inline]
 fn apply_stall_gate(conns: &mut [SrtlaConnection], current_time_ms: u64, config: &ConfigSnapshot) {
-    for c in conns.iter_mut() {
-        c.conn_timeout_ms = config.conn_timeout_ms;
-    }
+    sync_conn_timeout(conns, config);
 
     if !config.stall_deselect {
         for c in conns.iter_mut() {
